@@ -49,7 +49,7 @@ def run(ck):
         loops = pp.loops()
         lp = [(h, blk) for h, blk in loops.items() if ne.bb in blk]
         pushes = [cs for cs in T.calls(pp, name=("push", "extend", "push_back")) if lp and cs.bb in lp[0][1]]
-        rets = [st for i, j, st in pp.statements() if st["s"] == "assign" and st["pl"]["l"] == 0 and st["rv"]["r"] == "agg" and st["rv"].get("variant") == "Ok" and not pp.is_cleanup(i)]
+        rets = [st for i, j, st in pp.statements() if st["s"] == "assign" and st["pl"]["l"] in T.ret_locals(pp) and st["rv"]["r"] == "agg" and st["rv"].get("variant") == "Ok" and not pp.is_cleanup(i)]
         if not lp:
             ck.violation("2", "T5-loop-exit", pp, "expired-timers-loop", "expired timers are not collected in a loop: at most one timer per poll is reported (timers due in the same dispatch are starved)", site=pp.where(ne.bb))
         else:
@@ -65,7 +65,7 @@ def run(ck):
         waits = [cs for cs in pp.calls() if cs.f and cs.f["path"].startswith("polling::Poller::wait") and not pp.is_cleanup(cs.bb)]
         if waits:
             ok_e, err_e, _ = T.result_split(pp, waits[0].bb)
-            okret = [i for i, j, st in pp.statements() if st["s"] == "assign" and st["pl"]["l"] == 0 and st["rv"]["r"] == "agg" and st["rv"].get("variant") == "Ok" and not pp.is_cleanup(i)]
+            okret = [i for i, j, st in pp.statements() if st["s"] == "assign" and st["pl"]["l"] in T.ret_locals(pp) and st["rv"]["r"] == "agg" and st["rv"].get("variant") == "Ok" and not pp.is_cleanup(i)]
             bad = T.t2_all_exits(pp, [x for _, x in ok_e] or [waits[0].to], [ne.bb], exits=okret)
             ck.verdict(bad is None, "2", "T2-all-exits", pp, "wait-ok=>timers-collected", "every successful return of Poll::poll has gone through the expired-timer collection", "Poll::poll can return Ok without collecting expired timers (e.g. when IO events were received): an expired timer is starved while fds stay ready", site=pp.where(waits[0].bb), path=path_descr(pp, bad) if bad else None)
         else:
@@ -152,7 +152,7 @@ def run(ck):
                 zero = [tgt for v, tgt in blk["term"]["targets"] if v == 0]
                 exempt += [(sw, tgt) for tgt, lab in b2.succ_edges(sw) if tgt not in zero]
         starts = [x for _, x in ok_e] or [inner[0].to]
-        okret = [i for i, j, st in b2.statements() if st["s"] == "assign" and st["pl"]["l"] == 0 and st["rv"]["r"] == "agg" and st["rv"].get("variant") == "Ok" and not b2.is_cleanup(i)]
+        okret = [i for i, j, st in b2.statements() if st["s"] == "assign" and st["pl"]["l"] in T.ret_locals(b2) and st["rv"]["r"] == "agg" and st["rv"].get("variant") == "Ok" and not b2.is_cleanup(i)]
         bad = T.t2_all_exits(b2, starts, [p.bb for p in pings], exits=okret, removed_edges=exempt)
         ck.verdict(bool(pings) and bad is None, "4", "T2-all-exits", b2, "not-observed-empty=>self-ping", "every successful return on which neither the 'queue observed empty' nor the 'disconnected' flag is set re-pings the source", "the source can return Ok without re-arming itself although its queue was not observed empty: the remainder of a batch larger than the per-dispatch limit is stranded until the next external wake-up", site=b2.where(inner[0].bb), path=path_descr(b2, bad) if bad else None)
         # in the closure: flags are set only on the Err edge of try_recv
